@@ -149,8 +149,11 @@ def r2_oldpin(ctx, prog):
                     m = re.fullmatch(r'get\w+PINBlob\((\w+)\)', pe[2][1]) if len(pe[2]) > 1 else None
                     src = m.group(1) if m else None
                     became = [e for e in evs if e[0] == 'write' and e[1] == 'sdm' and e[2] == src]
+                    setters = [evs[i] for i in sets if evs[i][2] and evs[i][2][0] != 'token']
                     if src is None:
                         bad = ('the persisted blob %s is not taken from a SecureDataManager' % (pe[2][1:],), oc)
+                    elif setters and setters[-1][2][0] != src:
+                        bad = ('the new PIN is set on %s but the blob written to the token store is taken from %s, which still holds the old PIN: after the next C_Initialize the old PIN authenticates again and the new one is refused' % (setters[-1][2][0], src), oc)
                     elif src != 'sdm' and not became:
                         bad = ('the new PIN is persisted from %s but the live SecureDataManager keeps the old one: until the next restart the old PIN still authenticates' % src, oc)
                 if bad:
@@ -276,6 +279,8 @@ def run(ctx):
 
 
 MUTANTS = [
+    dict(name='setuserpin-persists-old-managers-blob', rule='C04.R2', file='src/lib/slot_mgr/Token.cpp', after='CK_RV Token::setUserPIN(ByteString& oldPIN, ByteString& newPIN)',
+         old='\tif (token->setUserPIN(newSdm->getUserPINBlob()) == false)', new='\tif (token->setUserPIN(sdm->getUserPINBlob()) == false)'),
     dict(name='initpin-no-state-test', rule='C04.R1', file='src/lib/SoftHSM.cpp', after='CK_RV SoftHSM::C_InitPIN(',
          old='\tif (session->getState() != CKS_RW_SO_FUNCTIONS) return CKR_USER_NOT_LOGGED_IN;\n', new=''),
     dict(name='setpin-off-by-one-max', rule='C04.R1', file='src/lib/SoftHSM.cpp', after='CK_RV SoftHSM::C_SetPIN(',
